@@ -801,6 +801,7 @@ struct FitProblem {
 	std::vector<std::vector<unsigned>> idx;        // [dim][row]
 	uint32_t monodim = 0;
 	bool expect_inactive = false;
+	double wscale = 1.0;                           // common factor on weights and smoothing handed to the library
 };
 
 FitProblem make_fit(const Json &d) {
@@ -888,6 +889,7 @@ FitProblem make_fit(const Json &d) {
 		for (uint32_t dd = 0; dd < p.ndim; dd++) p.idx[dd].push_back(0);
 		p.values.push_back(1); p.weights.push_back(1);
 	}
+	if (d.has("wscale_exp")) p.wscale = std::pow(10.0, (double)d.geti("wscale_exp"));
 	bool any_smooth = false;
 	for (double v : p.smoothing) if (v != 0) any_smooth = true;
 	p.expect_inactive = (data == "increasing" && !any_smooth && sparse == 0);
@@ -907,7 +909,11 @@ FitResult run_fit(const FitProblem &p, std::unique_ptr<photospline::splinetable<
 	for (uint32_t dd = 0; dd < p.ndim; dd++) data.ranges[dd] = (unsigned)p.coords[dd].size();
 	std::unique_ptr<photospline::splinetable<>> t(new photospline::splinetable<>());
 	try {
-		t->fit(data, p.weights, p.coords, p.order, p.knots, p.smoothing, p.porder, p.monodim, getenv("PSV_VERBOSE") != nullptr);
+		// weights are inverse variances: their unit is the caller's. A common factor on weights and penalty leaves
+		// every fit where it is; the library sees the scaled numbers, the oracles the problem as generated
+		std::vector<double> w2 = p.weights, sm2 = p.smoothing;
+		if (p.wscale != 1.0) { for (double &v : w2) v *= p.wscale; for (double &v : sm2) v *= p.wscale; }
+		t->fit(data, w2, p.coords, p.order, p.knots, sm2, p.porder, p.monodim, getenv("PSV_VERBOSE") != nullptr);
 		fr.ok = true;
 		fr.coef.assign(t->get_coefficients(), t->get_coefficients() + t->get_ncoeffs());
 		for (uint32_t dd = 0; dd < p.ndim; dd++) { fr.naxes.push_back(t->get_ncoeffs(dd)); fr.strides.push_back(t->get_stride(dd)); }
@@ -1058,6 +1064,7 @@ struct SchedHarness : Harness {
 			prob["data"] = Json(dk[gen.below(15)]);
 			static const char *wk[] = {"ones", "random", "mixed"};
 			prob["weights"] = Json(wk[gen.below(3)]);
+			{ Rng ws(runseed, "weight_scale"); static const int we[] = {-7, -6, -4, -2, 2, 4}; if (ws.chance(0.12)) prob["wscale_exp"] = Json(we[ws.below(6)]); }
 			static const char *kk[] = {"uniform", "uniform", "irregular"};
 			prob["knots"] = Json(kk[gen.below(3)]);
 			static const double sm[] = {0, 0, 1e-6, 1e-2, 1, 1e3, 1e6};
@@ -1550,6 +1557,7 @@ struct SchedHarness : Harness {
 		if (plan["problem"].geti("extra") > 0) { Json c = plan; c["problem"]["extra"] = Json(0); out.push_back(c); }
 		if (plan.getb("affinity_fails")) { Json c = plan; c["affinity_fails"] = Json(false); out.push_back(c); }
 		if (plan["problem"].has("storage")) { Json c = plan; c["problem"].erase("storage"); out.push_back(c); }
+		if (plan["problem"].has("wscale_exp")) { Json c = plan; c["problem"].erase("wscale_exp"); out.push_back(c); }
 		if (plan["problem"].has("matrix_scale_exp")) { Json c = plan; c["problem"].erase("matrix_scale_exp"); out.push_back(c); }
 		if (plan["problem"].has("unit_exp")) { Json c = plan; c["problem"].erase("unit_exp"); out.push_back(c); }
 		if (plan.gets("cholmod", "simplicial") != "simplicial") { Json c = plan; c["cholmod"] = Json("simplicial"); out.push_back(c); }
